@@ -667,6 +667,7 @@ func (m *moAnalysis) localTo(rg *moRegion, root ssa.Value, local map[ssa.Value]b
 }
 
 func (m *moAnalysis) effects(rg *moRegion) {
+	m.earlyExits(rg)
 	visited := map[*ssa.Function]bool{}
 	m.effectsIn(rg, rg.Fn, rg.Blocks, 0, visited, []string{m.p.Pos(rg.Pos) + ": " + rg.Desc}, map[ssa.Value]bool{})
 }
@@ -825,6 +826,116 @@ func (m *moAnalysis) effectsIn(rg *moRegion, fn *ssa.Function, blocks map[*ssa.B
 				}
 				m.effectsIn(rg, callee, nil, depth+1, visited, append(append([]string{}, path...), m.p.Pos(x.Pos())+": calls "+shortFuncName(callee)), clocal)
 			}
+		}
+	}
+}
+
+// earlyExits: a loop over a map that stops at the first element satisfying some condition after
+// having acted on it (or that hands the element out) acts on a map-order-dependent element.
+// Exits that report an error are the usual "fail on the first problem" idiom and are not flagged.
+func (m *moAnalysis) earlyExits(rg *moRegion) {
+	if rg.Kind != "map range" || rg.Blocks == nil {
+		return
+	}
+	ps := &puritySummary{memo: map[*ssa.Function]int{}}
+	var header *ssa.BasicBlock
+	for b := range rg.Blocks {
+		for _, in := range b.Instrs {
+			if _, ok := in.(*ssa.Next); ok {
+				header = b
+			}
+		}
+	}
+	if header == nil {
+		return
+	}
+	// blocks of the loop that contain an observable effect
+	effectAt := map[*ssa.BasicBlock]ssa.Instruction{}
+	for b := range rg.Blocks {
+		for _, in := range b.Instrs {
+			if _, isNext := in.(*ssa.Next); isNext {
+				continue
+			}
+			if hasLoopVisibleEffect(in, ps, 0) {
+				if _, has := effectAt[b]; !has {
+					effectAt[b] = in
+				}
+			}
+		}
+	}
+	derived := func(v ssa.Value) bool {
+		for _, lv := range phiLeaves(v) {
+			if rg.Iter[lv] || rg.Iter[unspill(lv)] {
+				return true
+			}
+		}
+		return false
+	}
+	for b := range rg.Blocks {
+		if b == header {
+			continue
+		}
+		for _, s := range b.Succs {
+			if rg.Blocks[s] {
+				continue
+			}
+			// b -> s leaves the loop early
+			var rets []*ssa.Return
+			seen := map[*ssa.BasicBlock]bool{}
+			var walk func(x *ssa.BasicBlock, d int)
+			walk = func(x *ssa.BasicBlock, d int) {
+				if seen[x] || d > 6 {
+					return
+				}
+				seen[x] = true
+				if ret, ok := x.Instrs[len(x.Instrs)-1].(*ssa.Return); ok {
+					rets = append(rets, ret)
+					return
+				}
+				if d > 0 && len(x.Instrs) > 3 {
+					return // real code after the loop: a break, judged by effects only
+				}
+				for _, n := range x.Succs {
+					walk(n, d+1)
+				}
+			}
+			walk(s, 0)
+			errorExit := len(rets) > 0
+			handsOut := false
+			for _, ret := range rets {
+				isErr := false
+				for _, res := range ret.Results {
+					if isErrorType(res.Type()) && !isNilConst(res) {
+						isErr = true
+					}
+					if derived(res) {
+						handsOut = true
+					}
+				}
+				if !isErr {
+					errorExit = false
+				}
+			}
+			if errorExit {
+				continue
+			}
+			var eff ssa.Instruction
+			for eb, in := range effectAt {
+				if eb == b || eb.Dominates(b) {
+					eff = in
+				}
+			}
+			if eff == nil && !handsOut {
+				continue // a pure search with an order-independent answer
+			}
+			what := "the loop over the map stops early after acting on the current element: which element is acted on depends on the map's iteration order"
+			pos := termPos(b)
+			if eff != nil {
+				pos = eff.Pos()
+			} else {
+				what = "the loop over the map returns a value taken from the first element that satisfies the condition: which one depends on the map's iteration order"
+			}
+			m.sinks = append(m.sinks, moSink{Region: rg, Pos: pos, What: what, Path: []string{m.p.Pos(rg.Pos) + ": " + rg.Desc}})
 		}
 	}
 }
